@@ -46,7 +46,8 @@ pub fn saturating_scale(lo: i32, hi: i32, shift: u32) -> i32 {
     } else if -hi <= hi_range {
         hi_range - i32::MIN
     } else {
-        (lo >> shift) + (hi << (32 - shift))
+        // widen first: `lo >> 32` is a shift overflow on i32 (panic with overflow checks) for the documented shift = 32
+        ((lo as i64 >> shift) as i32) + (hi << (32 - shift))
     }
 }
 
